@@ -343,6 +343,15 @@ def _bind_one(
         layers_to_clone = {hlg_name}
 
     clone_keys = dsk.get_all_external_keys() - omit_keys
+    if omit_keys:
+        # Key-level algorithm: a layer made up of keys to omit only is left alone,
+        # like the layers of omit in the layer-level algorithm. Cloning it would
+        # at best rename the layer but not its keys.
+        omit_layers = omit_layers | {
+            layer_name
+            for layer_name, layer in dsk.layers.items()
+            if layer.get_output_keys() <= omit_keys
+        }
     for layer_name in omit_layers:
         try:
             layer = dsk.layers[layer_name]
